@@ -290,3 +290,125 @@ def addition_tree(draw, min_n=2, max_n=5, max_adds=4, max_herald_photons=1, loss
         o = draw(st.integers(0, n - 1))
         ops.insert(draw(st.integers(0, len(ops))), ["herald", draw(st.integers(0, 1)), i, o])
     return {"n": n, "ops": ops}
+
+
+def limit_loss(prog, budget):
+    """Deterministically caps the number of loss elements in a program (and
+    its sub-programs) at `budget` by turning surplus ones off.  Returns
+    (new_prog, used)."""
+    def walk(p, left):
+        ops = []
+        for op in p["ops"]:
+            op = list(op)
+            if op[0] == "loss":
+                if left[0] >= 1:
+                    left[0] -= 1
+                else:
+                    continue
+            elif op[0] == "bs" and not isinstance(op[5], dict) and op[5] > 0:
+                if left[0] >= 2:
+                    left[0] -= 2
+                else:
+                    op[5] = 0
+            elif op[0] == "ps" and not isinstance(op[3], dict) and op[3] > 0:
+                if left[0] >= 1:
+                    left[0] -= 1
+                else:
+                    op[3] = 0
+            elif op[0] in ("add", "plus"):
+                op[1] = walk(op[1], left)
+            ops.append(op)
+        return {"n": p["n"], "ops": ops}
+    left = [budget]
+    new = walk(prog, left)
+    return new, budget - left[0]
+
+
+def dims(prog):
+    """(total circuit modes incl. ancillas, loss elements, herald photons)."""
+    s = program_stats(prog)
+
+    def anc(p, top):
+        k = 0
+        for op in p["ops"]:
+            if op[0] == "herald" and not top:
+                k += 1
+            elif op[0] in ("add", "plus"):
+                k += anc(op[1], False)
+        return k
+    return prog["n"] + anc(prog, True), s["loss"], s["herald_photons"]
+
+
+def n_states(prog, n_photons):
+    """Number of full Fock output states of the lossy dilation."""
+    import math
+    modes, loss, hp = dims(prog)
+    d = modes + loss
+    ph = n_photons + hp
+    return math.comb(d + ph - 1, ph)
+
+
+def fit_photons(prog, wanted, cap=15000):
+    """Largest photon number <= wanted keeping the exact distribution small."""
+    n = wanted
+    while n > 0 and n_states(prog, n) > cap:
+        n -= 1
+    return n
+
+
+SINGLE_GATES = ["H", "X", "Y", "Z", "S", "Sadj", "T", "Tadj", "SX"]
+ROT_GATES = ["Rx", "Ry", "Rz", "P"]
+
+
+@st.composite
+def gate_program(draw, n_qubits=2, max_gates=4, max_heralded=1, lossy=True, three=False):
+    """A dual-rail qubit circuit built from the lightworks.qubit library
+    (real side only; not interpretable by the wire model)."""
+    n = 2 * n_qubits
+    ops = []
+    heralded = 0
+    for _ in range(draw(st.integers(1, max_gates))):
+        k = draw(st.integers(0, 6))
+        if k <= 1:
+            q = draw(st.integers(0, n_qubits - 1))
+            ops.append(["gate", draw(st.sampled_from(SINGLE_GATES)), {}, 2 * q])
+        elif k == 2:
+            q = draw(st.integers(0, n_qubits - 1))
+            ops.append(["gate", draw(st.sampled_from(ROT_GATES)), {"theta": draw(phase)}, 2 * q])
+        elif k in (3, 4) and n_qubits >= 2:
+            q = draw(st.integers(0, n_qubits - 2))
+            names = ["CZ", "CNOT"]
+            if heralded < max_heralded:
+                names += ["CZ_Heralded", "CNOT_Heralded"]
+            name = draw(st.sampled_from(names))
+            if "Heralded" in name:
+                heralded += 1
+            kw = {} if name.startswith("CZ") else {"target_qubit": draw(st.integers(0, 1))}
+            ops.append(["gate", name, kw, 2 * q])
+        elif k == 5 and lossy:
+            ops.append(draw(st.one_of(op_loss(n), op_ps(n, True))))
+        elif k == 6 and three and n_qubits >= 3:
+            q = draw(st.integers(0, n_qubits - 3))
+            name = draw(st.sampled_from(["CCZ", "CCNOT"]))
+            kw = {} if name == "CCZ" else {"target_qubit": draw(st.integers(0, 2))}
+            ops.append(["gate", name, kw, 2 * q])
+        else:
+            ops.append(["unitary", 2 * draw(st.integers(0, n_qubits - 1)), "haar", 2,
+                        draw(st.integers(0, 10 ** 6))])
+    return {"n": n, "ops": ops}
+
+
+def gate_dims(prog):
+    """(total modes, loss elements, herald photons) for a gate_program."""
+    extra = {"CZ": (2, 0), "CNOT": (2, 0), "CZ_Heralded": (4, 2), "CNOT_Heralded": (4, 2),
+             "CCZ": (2, 0), "CCNOT": (2, 0)}
+    modes, hp, loss = prog["n"], 0, 0
+    for op in prog["ops"]:
+        if op[0] == "gate" and op[1] in extra:
+            modes += extra[op[1]][0]
+            hp += extra[op[1]][1]
+        elif op[0] == "loss":
+            loss += 1
+        elif op[0] == "ps" and op[3] > 0:
+            loss += 1
+    return modes, loss, hp
